@@ -95,6 +95,17 @@ def refs_file(pkg: str, targets: List[str], suffix: str = "") -> str:
     out.append("  oneof choice {")
     out += oneofs
     out.append("  }")
+    # plain fields NAMED like the module aliases the generated code may import the targets under
+    # (every dotted suffix of the target path, joined with underscores: 'b', 'a_b', 'items_detail')
+    alias_names = []
+    for t in targets:
+        segs = t.split(".") if t else []
+        for k in range(len(segs)):
+            nm = "_".join(segs[k:])
+            if nm and nm not in alias_names:
+                alias_names.append(nm)
+    for nm in alias_names:
+        out.append(f"  int32 {nm} = {n};"); n += 1
     out.append("}")
     out.append(f"service RefSvc{suffix} {{")
     for ti, t in enumerate(targets):
